@@ -33,6 +33,20 @@ def toy(V_p, a_grid, e_grid, r, w, kappa):
     return V, a, c
 
 toy_block = toy.add_hetinputs([toy_Pi])
+
+# the same household as a sequence of stages (exogenous transition, then the continuous choice)
+from sequence_jacobian.blocks.stage_block import StageBlock
+from sequence_jacobian.blocks.support.stages import Continuous1D, ExogenousMaker
+
+def toy_stage_f(V, a_grid, e_grid, r, w, kappa):
+    coh = (1 + r) * a_grid[np.newaxis, :] + w * e_grid[:, np.newaxis]
+    a = np.minimum(np.maximum(0.5 * coh + kappa * V, a_grid[0]), a_grid[-1])
+    c = coh - a
+    V = 0.5 * V + c
+    return V, a, c
+
+toy_stage = StageBlock([ExogenousMaker('Pi', 0, 'stage0'), Continuous1D(backward='V', policy='a', f=toy_stage_f, name='stage1')],
+                       name='toy_stage', backward_init=toy_init, hetinputs=(toy_Pi,))
 '''
 HEADER_TOY = ('From Coq Require Import ZArith QArith Qcanon List Arith Bool.\nFrom SSJ Require Import Model.HetLoop Model.HetPath.\nImport ListNotations.\nOpen Scope nat_scope.\n')
 
@@ -98,6 +112,29 @@ def correspondence(ctx):
         exprs.append(f'run_toy {g["nz"]} {g["na"]} {T} {C.coq_list(g["a_grid"], qf)} {C.coq_list(g["e_grid"], qf)} {qarr(g["Pi"])} {qf(g["kappa"])} {ins} '
                      f'{qarr(base["V"])} {qarr(base["Pi"])} {qarr(Dbeg0)}')
         cases.append((g, got))
+    # the stage rendition of the same household: its aggregates must follow the same executable model (terminal value = the first stage's continuation value,
+    # initial distribution = the first stage's beginning-of-stage distribution)
+    sblk = m.toy_stage
+    n_stage = 8 if ctx['tier'] == 'quick' else 80
+    for _ in range(n_stage):
+        g = gen_toy(rng)
+        calib = dict(a_grid=np.array(g['a_grid']), e_grid=np.array(g['e_grid']), Pi_ss=np.array(g['Pi']), shift=0.0, r=g['r'], w=g['w'], kappa=g['kappa'])
+        try:
+            ss = sblk.steady_state(calib)
+            ss0 = sblk.steady_state(dict(calib, r=g['r'] + 0.03125, w=g['w'] * 0.5)) if g['distinct_initial'] else None
+            T = g['T']
+            td = sblk.impulse_nonlinear(ss, {k: np.array(v) for k, v in g['shocks'].items()}, **({} if ss0 is None else dict(ss_initial=ss0)))
+        except Exception as ex:
+            dis.append(dict(what=f'stage rendition of the fixture household raised {type(ex).__name__}: {ex}', case=g))
+            continue
+        it = ss.internals[sblk.name]
+        got = dict(A=td['A'] + ss['A'], C=td['C'] + ss['C'], stage=True)
+        stats['stage_cases'] = stats.get('stage_cases', 0) + 1
+        ins = C.coq_list(range(T), lambda t: '{| i_r := %s; i_w := %s; i_shift := %s |}' % tuple(qf(ss[k] + g['shocks'].get(k, [0.0] * T)[t]) for k in ('r', 'w', 'shift')))
+        Dbeg0 = (ss0 if ss0 is not None else ss).internals[sblk.name]['stage0']['D']
+        exprs.append(f'run_toy {g["nz"]} {g["na"]} {T} {C.coq_list(g["a_grid"], qf)} {C.coq_list(g["e_grid"], qf)} {qarr(g["Pi"])} {qf(g["kappa"])} {ins} '
+                     f'{qarr(it["stage0"]["V"])} {qarr(it["Pi"])} {qarr(Dbeg0)}')
+        cases.append((dict(g, formulation='stage'), got))
     vals, logs = C.eval_in_coq('C09', HEADER_TOY, exprs, chunk=3, tag='toy')
     fr = lambda x: float(Fraction(int(x[0]), int(x[1])))
     A2 = lambda M: np.array([[fr(x) for x in r] for r in M])
@@ -106,6 +143,15 @@ def correspondence(ctx):
             continue
         back, fwd, agg = vm
         bad = []
+        if got.get('stage'):
+            for t in range(g['T']):
+                ag = agg[t] if len(agg[t]) == 2 else ((agg[t][0], agg[t][1]), agg[t][2])
+                for k, x in zip(('A', 'C'), ag):
+                    if abs(fr(x) - got[k][t]) > 1e-10 * max(1.0, abs(got[k][t])):
+                        bad.append(f'{k}[{t}]')
+            if bad:
+                dis.append(dict(what='StageBlock.impulse_nonlinear of the stage rendition differs from the executable model of the backward/forward recursions', case=dict(g, differing=bad[:8])))
+            continue
         for t in range(g['T']):
             for k, Mm in zip(('V', 'a', 'c'), back[t]):
                 if np.abs(A2(Mm) - got[k][t]).max() > 1e-11 * max(1.0, np.abs(got[k][t]).max()):
@@ -124,7 +170,8 @@ def correspondence(ctx):
     return dict(evaluations=len(exprs), distinct_nontrivial=len({C.canon(c[0]) for c in cases}),
                 rule='fixture household (2-3 income states, 4-6 asset grid points evenly or unevenly spaced, polynomial backward step V = V_p/2 + c with the asset policy clipped to the grid, Markov matrix '
                      'shifted by a hetinput): dyadic shocks to r, w and the Markov shifter, horizons 3-5, 35% started from a distinct initial steady state; individual paths of V, a, c (1e-11), distribution '
-                     'paths D and Dbeg (1e-12) and aggregates A, C at every date vs the rational model, which is given the terminal V, the steady-state Markov matrix and the initial Dbeg of the implementation',
+                     'paths D and Dbeg (1e-12) and aggregates A, C at every date vs the rational model, which is given the terminal V, the steady-state Markov matrix and the initial Dbeg of the implementation; '
+                     'the same household as a StageBlock (exogenous stage, continuous-choice stage): aggregates A, C at every date vs the same model (1e-10)',
                 samples=[{k: v for k, v in cases[0][0].items()}] if cases else [], disagreements=dis, stats=stats)
 
 
